@@ -10,7 +10,10 @@ import (
 
 	of "github.com/contiv/libOpenflow/openflow13"
 
+	"verif/bind"
+	"verif/corpus"
 	"verif/ev"
+	"verif/pkt"
 	"verif/wire"
 )
 
@@ -217,6 +220,82 @@ func c15Histories(r *ev.Run) int64 {
 	return n
 }
 
+// c15Invariant: the registry and the answers of lookups stay what they were while the rest of the
+// library is used: every frame of the switch corpus parsed, every packet of the packet corpus
+// decoded, every shape of the controller corpus built, sized and encoded. After each operation the
+// raw registry is compared with its pristine print (an operation that registers, widens or
+// otherwise edits an entry as a side effect is a violation, named by the operation's root kind).
+func c15Invariant(r *ev.Run) int64 {
+	pristine := registrySnapshot()
+	var n int64
+	reported := map[string]bool{}
+	check := func(what, kind string, tree *wire.N) bool {
+		n++
+		r.Add("transitions", 1)
+		if now := registrySnapshot(); now != pristine {
+			if !reported[what+kind] {
+				reported[what+kind] = true
+				diff := ""
+				a, b := strings.Split(pristine, ";"), strings.Split(now, ";")
+				for i := range a {
+					if i < len(b) && a[i] != b[i] {
+						diff = a[i] + " -> " + b[i]
+						break
+					}
+				}
+				r.Outcome("polluted")
+				r.Violation("registry-modified-by:"+what+":"+kind, fmt.Sprintf("the registry changed (%s) while the library %s a %s", diff, what, kind), map[string]any{"operation": what, "model": tree.String(), "tree": tree})
+			}
+			// restore so that later operations are judged on their own
+			pristine = now
+			return false
+		}
+		return true
+	}
+	corpus.Switch(r.Thorough(), r.Expired, func(string, bool) {}, func(t *wire.N) {
+		f, _ := wire.Encode(t)
+		if len(f) > 65535 {
+			return
+		}
+		safeParse(f)
+		check("parsed", rootSig(t), t)
+	})
+	r.Completed("(e) registry unchanged after parsing every frame of the switch corpus")
+	corpus.Controller(false, r.Expired, func(string, bool) {}, func(t *wire.N) {
+		if modelSize(t) > 65535 {
+			return
+		}
+		m, err, pn := safeBuild(t, bind.Hist{})
+		if pn != nil || err != nil || m == nil {
+			return
+		}
+		safeLen(m)
+		b, _, _ := safeEncode(m)
+		check("built and encoded", rootSig(t), t)
+		if len(b) >= 8 {
+			safeParse(append([]byte{}, b...))
+			check("parsed its own encoding of", rootSig(t), t)
+		}
+	})
+	r.Completed("(e) registry unchanged after building, sizing, encoding and re-parsing every shape of the controller corpus")
+	corpus.Packets(false, func(t *wire.N) {
+		b, _ := pkt.Encode(t)
+		func() {
+			defer func() { recover() }()
+			f := bind.FreshPkt(t.K)
+			if f != nil {
+				bind.CodecOf(f, func() any { return f }).Decode(append([]byte{}, b...))
+			}
+		}()
+		check("decoded", "packet:"+t.K, t)
+	})
+	r.Completed("(e) registry unchanged after decoding every packet of the packet corpus")
+	if n > 0 && len(reported) == 0 {
+		r.Outcome("registry-invariant")
+	}
+	return n
+}
+
 // c15Worker sweeps this worker's share of all 2^32 header words.
 func c15Worker(w *Worker) {
 	var buf [4]byte
@@ -230,10 +309,17 @@ func c15Worker(w *Worker) {
 		}
 		word := uint32(x)
 		binary.BigEndian.PutUint32(buf[:], word)
+		// m is reused from word to word (mask bit, class and field of the previous word are still in
+		// it: a decoder that only ever sets, never clears, shows here); f is fresh for every word
 		err := m.UnmarshalHeader(buf[:])
 		ok := err == nil && m.Class == uint16(word>>16) && m.Field == uint8((word>>9)&0x7f) && m.HasMask == ((word>>8)&1 == 1) && m.Length == uint8(word)
 		if ok {
 			ok = m.MarshalHeader() == word
+		}
+		if ok {
+			var f of.MatchField
+			err = f.UnmarshalHeader(buf[:])
+			ok = err == nil && f.Class == m.Class && f.Field == m.Field && f.HasMask == m.HasMask && f.Length == m.Length && f.MarshalHeader() == word
 		}
 		if !ok {
 			if bad == 0 {
@@ -261,6 +347,7 @@ func c15(r *ev.Run, replay string) {
 		ev.LoadReplay(replay, &c)
 		c15Table(r)
 		c15Histories(r)
+		c15Invariant(r)
 		if c.Word != nil {
 			var m of.MatchField
 			var buf [4]byte
@@ -275,6 +362,7 @@ func c15(r *ev.Run, replay string) {
 	}
 	a := c15Table(r)
 	c := c15Histories(r)
+	c += c15Invariant(r)
 	RunSharded(r, NumWorkers(), false)
 	words := r.Counter("header_words")
 	if words == 1<<32 {
